@@ -504,6 +504,29 @@ def fill_deck(seed):
     for level in range(depth, 0, -1):          # deepest universe first so that cell numbers stay unique
         _partition(d, rng, level, 100 * level, rng.choice([2, 3]), ids, [1, 2, 3, 4, 0], 1, fillers)
         fillers = (level,)
+    # LIKE n BUT: a filler universe re-used under another number through LIKE copies of all its cells (a valid
+    # partition again: `#n` inside a copied geometry still refers to the original cell), with some parameters overridden
+    if fillers and rng.random() < 0.45:
+        src_u = fillers[0]
+        new_u = src_u + 10
+        for c in [c for c in d.cells.values() if c.universe == src_u]:
+            opts = [f'U={new_u}']
+            lk = Cell(c.id + 50, c.mat, c.rho, None, imp=1, universe=new_u, fill=c.fill, filltr=c.filltr, trcl=c.trcl)
+            lk.like = (c.id, None)
+            lk.mat_eff, lk.rho_eff = c.mat, c.rho
+            if c.fill is not None and rng.random() < 0.6:
+                # BUT FILL=m without a transformation: the fill transformation of cell n must NOT be inherited
+                lk.fill, lk.filltr = c.fill, None
+                opts.append(f'FILL={c.fill}')
+            elif c.mat and rng.random() < 0.5:
+                m2 = rng.choice([1, 2, 4])
+                r2 = rng.choice(['-2.70', '-1.0', '0.05', '-2.70-1'])
+                lk.mat_eff, lk.rho_eff = m2, r2
+                d.materials[m2] = MATS[m2]
+                opts += [f'MAT={m2}', f'RHO={r2}']
+            lk.like = (c.id, ' '.join(opts))
+            d.add_cell(lk)
+        fillers = (rng.choice([src_u, new_u]),) if rng.random() < 0.3 else (new_u,)
     top = _partition(d, rng, 0, 1, rng.choice([2, 3, 4]), ids, [1, 2, 0], 1, fillers)
     # importances: level-0 only matter
     for c in d.cells.values():
